@@ -44,3 +44,6 @@ pub fn corpus() -> Vec<(String, String)> {
 pub mod prog;
 pub mod cstread;
 pub mod gen;
+pub mod damage;
+pub mod queries;
+pub mod ws;
